@@ -38,3 +38,9 @@ META["C20"] = {
     "note": "Trusts the independent stdlib/third-party encoders/decoders and the pool call sequence copied from connect-go v1.18.1; malformed input is only required not to crash.",
     "technique": "stateful property-based testing (rapid) + bounded-exhaustive history enumeration with differential oracle",
 }
+
+META["C14"] = {
+    "text": "Body tracing is checked through the exported TracingRoundTripper/TracingHandler wrappers on all four sides against a reference envelope parser (exact data events, end-stream content decompressed iff the compressed flag is set, partial events with the byte count seen, one body-end), for two independent partitions of the same bytes, and differentially against the unwrapped run of the same script for transparency. Exploration by seeded generation with shrinking.",
+    "note": "Trusts the 40-line reference parser and independent decoders; scripted readers/writers own all I/O so runs are deterministic.",
+    "technique": "property-based testing (rapid) against a reference model + metamorphic partition relation + differential transparency check",
+}
